@@ -57,9 +57,9 @@ var errNames = [ECount]string{"nil", "errA", "errB", "wrap(errA)", "join(errB,er
 
 // Error type ids for HandleErrorTypes.
 const (
-	TVal = iota // valErr{}
-	TPtr        // ptrErr{} given as non-pointer target for a pointer-receiver error
-	TPtr2       // &ptrErr{}
+	TVal  = iota // valErr{}
+	TPtr         // ptrErr{} given as non-pointer target for a pointer-receiver error
+	TPtr2        // &ptrErr{}
 	TCount
 )
 
@@ -67,8 +67,8 @@ var errTypeTargets = [TCount]any{valErr{}, ptrErr{}, &ptrErr{}}
 
 // Predicate ids.
 const (
-	POdd = iota // no error and odd integer result
-	PErrB       // error matching errB
+	POdd  = iota // no error and odd integer result
+	PErrB        // error matching errB
 	PNever
 	PBig // integer result >= 100
 	PAnyErr
@@ -147,15 +147,15 @@ type PolicySpec struct {
 	JitterFactor float32 `json:"jitter_factor,omitempty"`
 
 	// breaker
-	BrKind  int  `json:"br_kind,omitempty"` // 0 count (WithFailureThreshold), 1 ratio, 2 period count, 3 period rate
-	FailThr uint `json:"fail_thr,omitempty"`
-	FailCap uint `json:"fail_cap,omitempty"`
-	RateThr uint `json:"rate_thr,omitempty"`
-	ExecThr uint `json:"exec_thr,omitempty"`
-	Period  D    `json:"period,omitempty"`
-	SuccThr uint `json:"succ_thr,omitempty"`
-	SuccCap uint `json:"succ_cap,omitempty"`
-	NoListeners int `json:"no_listeners,omitempty"` // breaker: bit mask of state listeners NOT registered (1 open, 2 half-open, 4 close, 8 generic)
+	BrKind      int  `json:"br_kind,omitempty"` // 0 count (WithFailureThreshold), 1 ratio, 2 period count, 3 period rate
+	FailThr     uint `json:"fail_thr,omitempty"`
+	FailCap     uint `json:"fail_cap,omitempty"`
+	RateThr     uint `json:"rate_thr,omitempty"`
+	ExecThr     uint `json:"exec_thr,omitempty"`
+	Period      D    `json:"period,omitempty"`
+	SuccThr     uint `json:"succ_thr,omitempty"`
+	SuccCap     uint `json:"succ_cap,omitempty"`
+	NoListeners int  `json:"no_listeners,omitempty"` // breaker: bit mask of state listeners NOT registered (1 open, 2 half-open, 4 close, 8 generic)
 
 	// limiter
 	Smooth   bool `json:"smooth,omitempty"`
@@ -229,12 +229,12 @@ func entryIsGet(e int) bool    { return e%4 >= 2 }
 
 // Context kinds.
 const (
-	CtxNone       = iota // executor without WithContext
-	CtxBackground        // WithContext(context.Background())
-	CtxCancel            // cancellable context
-	CtxDeadline          // context with deadline CtxD after the op starts
-	CtxValue             // context carrying values (cache key CtxKey)
-	CtxCancelValue       // cancellable + values
+	CtxNone        = iota // executor without WithContext
+	CtxBackground         // WithContext(context.Background())
+	CtxCancel             // cancellable context
+	CtxDeadline           // context with deadline CtxD after the op starts
+	CtxValue              // context carrying values (cache key CtxKey)
+	CtxCancelValue        // cancellable + values
 )
 
 // Cancellation sources.
@@ -266,13 +266,13 @@ type Op struct {
 	Kind string `json:"kind"` // "exec", "sleep", standalone calls "br.*", "bh.*", "rl.*"
 
 	// exec
-	Stack   int    `json:"stack,omitempty"`
-	Entry   int    `json:"entry,omitempty"`
-	Ctx     int    `json:"ctx,omitempty"`
-	CtxD    D      `json:"ctx_d,omitempty"`
-	CtxKey  string `json:"ctx_key,omitempty"`
-	Script  int    `json:"script,omitempty"`
-	NoWait  bool   `json:"no_wait,omitempty"` // async: do not wait for completion before the next op
+	Stack   int          `json:"stack,omitempty"`
+	Entry   int          `json:"entry,omitempty"`
+	Ctx     int          `json:"ctx,omitempty"`
+	CtxD    D            `json:"ctx_d,omitempty"`
+	CtxKey  string       `json:"ctx_key,omitempty"`
+	Script  int          `json:"script,omitempty"`
+	NoWait  bool         `json:"no_wait,omitempty"` // async: do not wait for completion before the next op
 	Readers [][]ReaderOp `json:"readers,omitempty"` // async: extra reader tasks
 
 	// cancellation injected by a separate task
